@@ -3,6 +3,7 @@
 -/
 import SV.Proofs.Engine
 import SV.Proofs.StatefulMachine
+import SV.Model.C12Settings
 import SV.Model.Plan
 
 namespace SV.Props.C12
@@ -196,5 +197,45 @@ example : SaneAll 0 {} [⟨[⟨false, [⟨1, false, .responds [.fail [1]]⟩], f
   refine ⟨⟨⟨1, by decide, by decide⟩, fun _ => ⟨trivial, fun _ => ⟨trivial, fun _ => trivial⟩⟩⟩, by decide⟩
 
 end StatefulMachine
+
+/-! ### the configured Hypothesis settings reach the test (`create_test`) -/
+
+namespace Settings
+open SV.Model.C12Settings
+
+/-- **What the user configured is what the test runs with**, whatever Hypothesis profile is active in the process:
+    `max_examples`, `stateful_step_count` and `derandomize` are the configured values; the deadline is the configured one
+    unless it was left at the active default, in which case it is schemathesis' own; the phases are the configured ones
+    without `explain` (and without `generate` / `reuse` for a test that is not a fuzzing one). -/
+theorem configured_settings_reach_the_test (active stock c : S) (fuzzing : Bool) :
+    (effective .active active stock (some c) fuzzing).maxExamples = c.maxExamples ∧
+    (effective .active active stock (some c) fuzzing).stepCount = c.stepCount ∧
+    (effective .active active stock (some c) fuzzing).derandomize = c.derandomize ∧
+    (effective .active active stock (some c) fuzzing).deadline = (if c.deadline = active.deadline then defaultDeadline else c.deadline) ∧
+    (effective .active active stock (some c) fuzzing).phases =
+      (if fuzzing then c.phases.filter (· ≠ .explain)
+       else (c.phases.filter (· ≠ .explain)).filter fun p => p ≠ .reuse ∧ p ≠ .generate) := by
+  have hp : ∀ {α : Type} [DecidableEq α] (x y : α), pick x y y = x := by
+    intro α _ x y; unfold pick; split
+    · rfl
+    · rename_i h; simp only [ne_eq, Decidable.not_not] at h; exact h.symm
+  cases fuzzing <;> simp only [effective, if_true, hp, Bool.false_eq_true, if_false, and_self, true_and]
+  all_goals
+    unfold pick
+    by_cases hd : c.deadline = active.deadline
+    · simp [hd]
+    · simp [hd]
+
+/-- **Comparing with the stock profile instead is wrong** exactly when another profile is active: configured
+    `max_examples = 100` (the stock value) under an active profile with 140 would run 140 examples. -/
+theorem stock_comparison_full_false :
+    (effective .stock ⟨140, 50, none, false, [.explicit, .reuse, .generate, .target, .shrink, .explain]⟩
+                      ⟨100, 50, some 200, false, [.explicit, .reuse, .generate, .target, .shrink, .explain]⟩
+                      (some ⟨100, 50, none, false, [.generate]⟩) true).maxExamples = 140 ∧
+    (effective .active ⟨140, 50, none, false, [.explicit, .reuse, .generate, .target, .shrink, .explain]⟩
+                       ⟨100, 50, some 200, false, [.explicit, .reuse, .generate, .target, .shrink, .explain]⟩
+                       (some ⟨100, 50, none, false, [.generate]⟩) true).maxExamples = 100 := by decide
+
+end Settings
 
 end SV.Props.C12
